@@ -16,6 +16,33 @@ pub fn main_with(find: &dyn Fn(&str) -> Option<PropDef>) {
     runner::install_panic_hook();
     let cmd = args[1].as_str();
     let id = args[2].as_str();
+    if cmd == "decode" {
+        // fuzz artifact -> case file (same decoder as the fuzz targets): mvv decode <target> <artifact> <out.json>
+        let data = std::fs::read(args.get(3).cloned().unwrap_or_default()).unwrap_or_default();
+        let case = match id {
+            "fz_tess" => crate::fuzzdec::decode(&data, 10, true),
+            "fz_clip" => crate::fuzzdec::decode(&data, 12, false),
+            "fz_nn" => crate::fuzzdec::decode(&data, 40, false),
+            "fz_insphere" => crate::fuzzdec::decode_tuple(&data).map(|t| {
+                let mut c = crate::case::Case::default();
+                c.gens = vec![[0.5; 3]];
+                c.aux_i = t;
+                c
+            }),
+            _ => None,
+        };
+        match case {
+            Some(c) => {
+                let out = args.get(4).cloned().unwrap_or("/dev/stdout".into());
+                std::fs::write(&out, serde_json::to_string_pretty(&c.to_json()).unwrap()).unwrap();
+                std::process::exit(0);
+            }
+            None => {
+                eprintln!("artifact does not decode to a case");
+                std::process::exit(3);
+            }
+        }
+    }
     if cmd == "serve" {
         // line based server for differential checks across builds (C09, C11)
         crate::serve::serve_main();
